@@ -5,9 +5,26 @@ and the directives that must emit nothing.
 """
 from pyvc.asmh import assemble
 from lemmas.common import literal
-from lemmas.asm_forms import vclass
+from lemmas.asm_forms import vclass, vsplit
 
 PRINTABLE = [(32, 126)]
+
+
+def product_split(per_elem, limit=130):
+    """input classes of several symbolic values: the full product of the per-value classes while it is small, otherwise the
+    classes of each value on its own"""
+    per_elem = [p for p in per_elem if p]
+    if not per_elem:
+        return None
+    n = 1
+    for p in per_elem:
+        n *= len(p)
+    if n <= limit:
+        out = [("", True)]
+        for p in per_elem:
+            out = [(a + "," + lab, (ca & c) if ca is not True else c) for a, ca in out for lab, c in p]
+        return out
+    return [x for p in per_elem for x in p]
 
 
 def tc(v, width):
@@ -51,7 +68,8 @@ class AsmData:
                             "len": L, "bounded": "string length %d, symbolic printable characters" % L})
             out.append({"id": "FCC/%s/comment" % {'"': "dq", "/": "slash", "'": "sq"}[delim], "kind": "fcc-comment", "delim": delim,
                         "bounded": "2 symbolic characters + trailing comment"})
-        out.append({"id": "FCC/concrete", "kind": "fcc-concrete", "bounded": "concrete strings up to 255 chars"})
+        for i in range(len(FCC_STRINGS)):
+            out.append({"id": "FCC/concrete/%d" % i, "kind": "fcc-concrete", "i": i, "bounded": "one concrete string"})
         for k in ("EQU", "ORG", "SETDP", "NAM", "END", "END-op", "INCLUDE", "SET"):
             out.append({"id": "silent/%s" % k, "kind": "silent", "dir": k})
         for d in ("FCB", "FDB", "FCC", "RMB", "ORG", "EQU"):
@@ -64,12 +82,12 @@ class AsmData:
         native = env.mode == "native"
         getattr(self, "k_" + k.replace("-", "_"))(env, cell, native)
 
-    def _common(self, env, run, sig):
+    def _common(self, env, run, sig, sp=None):
         if run.status == "hang":
-            env.fail("C13:terminates", ("C13",), sig("hang"))
+            env.fail("C13:terminates", ("C13",), sig("hang"), split=sp)
             return False
         if run.status == "escape":
-            env.fail("C13:no-internal-error", ("C13",), sig("escape:%s" % run.exc_class))
+            env.fail("C13:no-internal-error", ("C13",), sig("escape:%s" % run.exc_class), split=sp)
             return False
         env.ensure("C13:no-internal-error", True, ("C13",))
         return True
@@ -102,7 +120,8 @@ class AsmData:
         def sig(what):
             return (lambda: "%s/%d%s:%s:vals=%s" % (d, len(vals), "/" + cell["via"] if cell.get("via") else "", what,
                                                     ",".join(vclass(v) for v in vals))) if native else None
-        if not self._common(env, run, sig):
+        sp = product_split([vsplit(v) for v in vals])
+        if not self._common(env, run, sig, sp):
             return
         fits = True
         for v in vals:
@@ -111,23 +130,23 @@ class AsmData:
         tags = ("C05", "C04") if cell.get("via") else ("C05",)
         if run.status == "diag":
             if fits:
-                env.fail("C05:accepted", tags, sig("rejected:%s" % run.exc_class))
+                env.fail("C05:accepted", tags, sig("rejected:%s" % run.exc_class), split=sp)
             else:
                 env.ensure("C05:rejects-unfit", True, ("C05",))
             return
         st = run.stmts[-1]
         if not fits:
-            env.fail("C05:rejects-unfit", ("C05",), sig("accepted-unfit:emitted=%d" % len(st.bytes)))
+            env.fail("C05:rejects-unfit", ("C05",), sig("accepted-unfit:emitted=%d" % len(st.bytes)), split=sp)
             return
-        env.ensure("C02:size", st.size == len(st.bytes), ("C02",), sig("size=%s,len=%d" % (st.size, len(st.bytes))))
+        env.ensure("C02:size", st.size == len(st.bytes), ("C02",), sig("size=%s,len=%d" % (st.size, len(st.bytes))), split=sp)
         if len(st.bytes) != width * len(vals):
-            env.fail("C05:bytes", tags, sig("count=%d,want=%d" % (len(st.bytes), width * len(vals))))
+            env.fail("C05:bytes", tags, sig("count=%d,want=%d" % (len(st.bytes), width * len(vals))), split=sp)
             return
         ok = True
         for i, v in enumerate(vals):
             got = st.bytes[i] if width == 1 else st.bytes[2 * i] * 256 + st.bytes[2 * i + 1]
             ok = ok & (got == tc(v, width))
-        env.ensure("C05:bytes", ok, tags, sig("value-mismatch"))
+        env.ensure("C05:bytes", ok, tags, sig("value-mismatch"), split=sp)
 
     def k_list8(self, env, cell, native):
         """8-element lists: seven concrete in-range values and ONE symbolic element whose position is enumerated"""
@@ -249,24 +268,24 @@ class AsmData:
 
         def sig(what):
             return (lambda: "%s:%s:chars=%s" % (tag, what, ",".join(cls(c) for c in chars))) if native else None
-        if not self._common(env, run, sig):
+        sp = None if native else product_split([_csplit(c) for c in chars])
+        if not self._common(env, run, sig, sp):
             return
         if run.status != "ok":
-            env.fail("C05:accepted", ("C05",), sig("rejected:%s" % run.exc_class))
+            env.fail("C05:accepted", ("C05",), sig("rejected:%s" % run.exc_class), split=sp)
             return
         st = run.stmts[0]
-        env.ensure("C02:size", st.size == len(st.bytes), ("C02",), sig("size=%s,len=%d" % (st.size, len(st.bytes))))
+        env.ensure("C02:size", st.size == len(st.bytes), ("C02",), sig("size=%s,len=%d" % (st.size, len(st.bytes))), split=sp)
         if len(st.bytes) != len(chars):
-            env.fail("C05:fcc-bytes", ("C05",), sig("count=%d,want=%d" % (len(st.bytes), len(chars))))
+            env.fail("C05:fcc-bytes", ("C05",), sig("count=%d,want=%d" % (len(st.bytes), len(chars))), split=sp)
             return
         ok = True
         for b, c in zip(st.bytes, chars):
             ok = ok & (b == (ord(c) if native else _code(c)))
-        env.ensure("C05:fcc-bytes", ok, ("C05",), sig("value-mismatch"))
+        env.ensure("C05:fcc-bytes", ok, ("C05",), sig("value-mismatch"), split=sp)
 
     def k_fcc_concrete(self, env, cell, native):
-        strings = ["HELLO WORLD", "A" * 255, "a b  c   d", "x;y", "tab\there", "1,2,3", "[brackets]", "it's", "100%", "~|{}"]
-        for s in strings:
+        for s in [FCC_STRINGS[cell["i"]]]:
             delim = '"' if '"' not in s else "/"
             lines = [" FCC %s%s%s\n" % (delim, s, delim)]
             run = assemble(env, lines)
@@ -326,6 +345,20 @@ class AsmData:
         run = assemble(env, lines)
         sig = lambda what: (lambda: "empty/%s:%s" % (d, what)) if native else None
         self._common(env, run, sig)
+
+
+FCC_STRINGS = ["HELLO WORLD", "A" * 255, "a b  c   d", "x;y", "tab\there", "1,2,3", "[brackets]", "it's", "100%", "~|{}", "A", "9", "X Y Z",
+               "ABCDEFGHIJKLMNOPQRSTUVWXYZ0123456789", "lower case only", "PCR", "A,X"]
+
+
+def _csplit(c):
+    """character classes of a symbolic printable character (the classes of _fcc_check.cls)"""
+    from pyvc.sym import mk, SymChar, And, Or, Not
+    if not isinstance(c, SymChar):
+        return None
+    code = mk(c.code)
+    alnum = Or(And(code >= 48, code <= 57), And(code >= 65, code <= 90), And(code >= 97, code <= 122))
+    return [("space", code == 32), ("semicolon", code == 59), ("alnum", alnum), ("punct", And(Not(alnum), code != 32, code != 59))]
 
 
 def _neq(c, ch):
